@@ -446,6 +446,7 @@ type Contract struct {
 	PureFn   string // for library "pure = name" mapping to an SMT function or builtin
 	EffectFree bool
 	HavocAll bool
+	Unchecked map[string]string // obligation kind -> reason (listed as an unchecked assumption)
 }
 
 type TypeSpec struct {
@@ -487,7 +488,7 @@ func newSpecDB() *SpecDB {
 
 var clauseKW = map[string]bool{"requires": true, "ensures": true, "modifies": true, "invariant": true, "loop": true, "let": true,
 	"sink": true, "pure": true, "trusted": true, "fresh": true, "typeinv": true, "guarded_by": true, "ghost": true, "noinline": true,
-	"effectfree": true, "havocall": true, "dyn": true, "ghostat": true, "preserves": true}
+	"effectfree": true, "havocall": true, "dyn": true, "ghostat": true, "preserves": true, "unchecked": true}
 
 // parseSpecText parses the //@ lines of one file. pkg is the package path
 // the file belongs to ("" for library/prelude files).
@@ -647,6 +648,18 @@ func (db *SpecDB) parseSpecText(file, pkg string, lines []string, lib bool) {
 			} else {
 				errf(it.line, "dyn <field|param> pure|effectfree|fresh")
 			}
+		case "unchecked":
+			// unchecked <obligation kind>: <reason> — the safety obligations of that kind are not generated for this
+			// function; the reason is listed among the unchecked assumptions of every run
+			j := strings.Index(rest, ":")
+			if cur == nil || j <= 0 || strings.TrimSpace(rest[j+1:]) == "" {
+				errf(it.line, "unchecked <kind>: <reason> inside a func block")
+				continue
+			}
+			if cur.Unchecked == nil {
+				cur.Unchecked = map[string]string{}
+			}
+			cur.Unchecked[strings.TrimSpace(rest[:j])] = strings.TrimSpace(rest[j+1:])
 		case "loop":
 			fs := strings.Fields(rest)
 			if len(fs) == 0 {
